@@ -83,6 +83,13 @@ def _plabel(p):
 
 
 def _sig(inv, r):
+    s = _sig0(inv, r)
+    if r is not None and r["q"].get("ext", "e2e") != "e2e":
+        s += " ext=%s" % r["q"]["ext"]
+    return s
+
+
+def _sig0(inv, r):
     """structural signature: clause + the input class the clause depends on"""
     c = CLAUSE.get(inv, inv)
     if r is None:
